@@ -637,14 +637,14 @@ func (gw *GlobalWindow) getKeyAndValues(data map[string]any) (string, map[string
 		}
 		values[k] = val
 		if val == nil {
-			parts = append(parts, "")
+			parts = append(parts, groupKeyNullPart)
 		} else if s, ok := val.(string); ok {
-			parts = append(parts, s)
+			parts = append(parts, escapeKeyPart(s))
 		} else {
-			parts = append(parts, fmt.Sprintf("%v", val))
+			parts = append(parts, escapeKeyPart(fmt.Sprintf("%v", val)))
 		}
 	}
-	return strings.Join(parts, "|"), values
+	return strings.Join(parts, groupKeyPartSep), values
 }
 
 // feedAggs feeds the row's field values into a group's output aggregators.
